@@ -4,7 +4,7 @@
    The REFERENCE MATCHER lives here.  Credentials are attribute vectors, an input descriptor is a list of
    field filters (type/const/enum/pattern, optional) + format + groups from which  RefSat  (its `sat` set) is
    derived, a submission requirement is [rule, count/min/max (sets: {} = absent), from | nested].
-   Set-theoretic definitions: RefSat, ValidSel (ValidSelection), CompleteExists (ExistsCompleteSelection),
+   Set-theoretic definitions: RefField (a field over its LIST of paths), RefSat, ValidSel (ValidSelection), CompleteExists (ExistsCompleteSelection),
    Expected (ExpectedMapping), Adm (Extract).
    Implementation-shaped model of vcr/pe: MatchModel (Match), BuildSub (Build), CodeVerdict (Validate), MutSet.
    Deviations of the code from the prescriptive design are boolean constants (TRUE = prescriptive):
@@ -19,6 +19,10 @@
                               won; TRUE in the descriptive configuration since)
      WalletNormalises         the wallet re-matches its own selection until it is reproduced (code: one pass; the
                               verifier re-runs the greedy first-match on the PRESENTED order and may pick otherwise)
+     PathsIncremental         a field lists SEVERAL paths and more than one of them may select a value in the same
+                              credential: a path whose value fails the filter is passed over and the next one is tried
+                              (code: does so; FALSE = "the first path that selects a value decides", the defect class the
+                              family `paths` and the invariant NoFalseMissing exist for; only Pex.vac.PathsIncremental.cfg)
    TLC proves the invariants for the prescriptive configuration; cases are generated from the descriptive one. *)
 EXTENDS Naturals, Sequences, FiniteSets, TLC
 
@@ -32,7 +36,7 @@ CONSTANTS Families,                \* families of cases explored in this configu
           PatRes(_, _),            \* regular-expression table: [m |-> "no"|"whole"|"group"|"multi", cap |-> STRING]
           DecoyCred,               \* the credential inside the unrelated presentation of the *-arr2 envelopes
           PickMaxOptional, ArrayNoFallThrough, MapEveryDescriptor, MaxBoundsSelection, ResolveChecksEveryEntry,
-          WalletNormalises
+          WalletNormalises, PathsIncremental
 
 VARIABLES phase, fam, def, wallet, out, shape, env, ek, sub, mut, verdict
 vars == <<phase, fam, def, wallet, out, shape, env, ek, sub, mut, verdict>>
@@ -54,8 +58,9 @@ Absent == [k |-> "none", s |-> "", n |-> 0, a |-> <<>>]
 TypeName(v) == CASE v.k = "s" -> "string" [] v.k = "n" -> "number" [] v.k = "b" -> "boolean"
                  [] v.k = "a" -> "array" [] OTHER -> "none"
 
-\* value found by the JSON paths of abstract path p in credential c ($.type is array valued)
-AttrVal(c, p) == CASE p = "f" -> c.f [] p = "g" -> c.g
+\* value found by the JSON paths of abstract path p in credential c ($.type is array valued; h is a claim no
+\* credential of the universe carries)
+AttrVal(c, p) == CASE p = "f" -> c.f [] p = "g" -> c.g [] p = "h" -> Absent
                    [] OTHER -> A(<<S("VerifiableCredential"), S(c.typ)>>)
 
 R(r, x) == [r |-> r, x |-> x]          \* r: yes | no | err | panic ; x: extracted value
@@ -90,11 +95,31 @@ Filter(flt, v, strict) ==
          ELSE IF flt.pat # <<>> /\ flt.type = "string" THEN R("panic", Absent)
          ELSE R("yes", v)
 
-Field(fl, c, strict) ==
-    LET v == AttrVal(c, fl.path) IN
-    IF v.k = "none" THEN (IF fl.opt THEN R("yes", Absent) ELSE No)
+\* ----- a field lists its paths as a SEQUENCE (fl.path); several of them may select a value in one credential
+\* verdict of the field's filter on what ONE path selects ("none": the path selects nothing in c)
+AtPath(fl, c, p, strict) ==
+    LET v == AttrVal(c, p) IN
+    IF v.k = "none" THEN R("none", Absent)
     ELSE IF fl.flt = <<>> THEN R("yes", v)
     ELSE Filter(fl.flt[1], v, strict)
+
+\* presentation_definition.go matchField: the paths are tried in order; the first value that passes the filter is the
+\* field's value; a value that fails is passed over (inc) but spoils `optional`; an error / panic ends the loop
+RECURSIVE FieldFrom(_, _, _, _, _, _)
+FieldFrom(fl, c, strict, inc, i, failed) ==
+    IF i > Len(fl.path) THEN (IF fl.opt /\ ~failed THEN R("yes", Absent) ELSE No)
+    ELSE LET r == AtPath(fl, c, fl.path[i], strict) IN
+         IF r.r = "none" THEN FieldFrom(fl, c, strict, inc, i + 1, failed)
+         ELSE IF r.r = "no" THEN (IF inc THEN FieldFrom(fl, c, strict, inc, i + 1, TRUE) ELSE No)
+         ELSE r
+Field(fl, c, strict) == FieldFrom(fl, c, strict, PathsIncremental, 1, FALSE)
+
+\* REFERENCE (Presentation Exchange, input evaluation): a field is satisfied by a credential iff one of its paths selects
+\* a value that passes the filter, or it is optional and none of its paths selects anything
+RefField(fl, c) ==
+    LET P == 1..Len(fl.path) IN
+    \/ \E i \in P : AtPath(fl, c, fl.path[i], TRUE).r \in {"yes", "err"}
+    \/ fl.opt /\ \A i \in P : AtPath(fl, c, fl.path[i], TRUE).r = "none"
 
 RECURSIVE Cons(_, _, _, _)      \* fields in order, the first one that is not satisfied decides
 Cons(fs, c, strict, i) == IF i > Len(fs) THEN "yes"
@@ -105,16 +130,21 @@ FmtOK(f, c) == CASE f = "none" -> TRUE [] f = "both" -> TRUE [] f = "ldp" -> c.f
 
 \* ----- the `sat` set of a descriptor (reference)
 RefSat(df, d, c) == /\ FmtOK(df.fmt, c) /\ FmtOK(d.fmt, c)
-                    /\ \A i \in 1..Len(d.fields) : Field(d.fields[i], c, TRUE).r \in {"yes", "err"}
+                    /\ \A i \in 1..Len(d.fields) : RefField(d.fields[i], c)
 CodeSat(df, d, c) == FmtOK(df.fmt, c) /\ FmtOK(d.fmt, c) /\ Cons(d.fields, c, FALSE, 1) = "yes"
 
 \* ----- Extract(field): admissible values of a named field for credential c
-Adm(fl, c) ==
-    LET v == AttrVal(c, fl.path) IN
+\* (the value one of the field's paths selects and the filter passes, or its single capture; nothing selected: Absent)
+AdmAt(fl, v) ==
     IF v.k = "s" /\ fl.flt # <<>> /\ fl.flt[1].pat # <<>> /\ fl.flt[1].enum = <<>> /\ fl.flt[1].type = "string"
          /\ PatRes(fl.flt[1].pat[1], v.s).m \in {"whole", "group"}
     THEN <<v, S(PatRes(fl.flt[1].pat[1], v.s).cap)>>
     ELSE <<v>>
+RECURSIVE AdmFrom(_, _, _)
+AdmFrom(fl, c, i) ==
+    IF i > Len(fl.path) THEN <<>>
+    ELSE (IF AtPath(fl, c, fl.path[i], TRUE).r = "yes" THEN AdmAt(fl, AttrVal(c, fl.path[i])) ELSE <<>>) \o AdmFrom(fl, c, i + 1)
+Adm(fl, c) == IF AdmFrom(fl, c, 1) = <<>> THEN <<Absent>> ELSE AdmFrom(fl, c, 1)
 Extracted(fl, c) == Field(fl, c, ArrayNoFallThrough).x
 
 \* ------------------------------------------------------------ wallet: Match
@@ -525,6 +555,16 @@ WalletSelectsOnlySatisfying ==
 NoPartialSelection ==
     Matched => /\ (out.res = "ok" => ValidSel(def, Mapped(out)))
                /\ (~CompleteExists(def, wallet) => out.res # "ok")
+
+\* "when no complete selection exists the wallet reports that": the report is the wallet's verdict `missing credentials`
+\* (ErrNoCredentials), so it is given only when it is true.  Judged where the statement leaves no room about what a
+\* complete selection is: no nested requirement (how a `pick`/`all` counts nested requirements that are satisfied by
+\* nothing is open, see SatReq) and every group referenced.
+Unambiguous(df) == /\ \A k \in 1..Len(df.reqs) : df.reqs[k].nested = <<>>
+                   /\ (df.reqs # <<>> => DefGroups(df) \subseteq AllReqGroups(df))
+MissingReport(o) == o.res = "error" /\ o.why \notin {"filter-error", "group-unavailable", "unstable-selection"}
+MustFind(df, w) == Unambiguous(df) /\ CompleteExists(df, w)
+NoFalseMissing == (Matched /\ MissingReport(out)) => ~MustFind(def, wallet)
 
 NoPanic == out.res # "panic" /\ verdict # "panic"
 
